@@ -17,8 +17,12 @@ import (
 // nested pipelines, Cancel) runs against a controlled Runner stub. Serves
 // C01, C02, C03 (scheduler part), C04 and the scheduler-level part of C12.
 
-const pollPause = 50 * time.Millisecond
-const liveBound = 60 * time.Second
+// simPause is the polling pause the simulator gives every Scheduler (hook H7): small, so that
+// settling the polling loop (several passes) costs little simulated time.
+const simPause = 100 * time.Microsecond
+const pollPause = simPause
+const simTick = 5 * time.Millisecond
+const liveBound = 30 * time.Second
 
 var statusNames = []string{MWaiting, "running", MSkipped, MDone, MError, MCanceled}
 
@@ -145,6 +149,7 @@ type schedEngine struct {
 	exits         map[string]string // leaf -> outcome
 	maxInflight   int
 	faultsFired   int
+	nstages       int
 	stageReleased map[string]bool
 }
 
@@ -170,6 +175,13 @@ func (e *schedEngine) inflight(name string) bool {
 func (e *schedEngine) depSatisfied(d *StageSpec) (bool, string) {
 	if d.Cond == "false" {
 		return true, ""
+	}
+	if d.Cond == "missing" {
+		// the condition could not be evaluated: the stage failed without running
+		if d.Allow {
+			return true, ""
+		}
+		return false, d.Name + " failed (condition error) without allow_failure"
 	}
 	if d.Nested == nil {
 		out, ok := e.exits[d.Name]
@@ -299,6 +311,42 @@ func (e *schedEngine) eligibleMissing() []string {
 	return missing
 }
 
+// signature of the scheduler-visible state the controller bases its choices on.
+func (e *schedEngine) signature() string {
+	var sb strings.Builder
+	for _, p := range e.c.Parked {
+		sb.WriteString(p.Kind)
+		sb.WriteByte(':')
+		sb.WriteString(p.Key)
+		sb.WriteByte(' ')
+	}
+	fmt.Fprintf(&sb, "ret=%v cr=%d", e.returned, e.cancelRet)
+	return sb.String()
+}
+
+// settle lets the polling loop run until the observable state has been stable for more passes
+// than the longest propagation chain: which stage a pass visits first is Go map order, so only
+// the fixpoint is a deterministic observation. One settle is one batch of the canonical log.
+func (e *schedEngine) settle() {
+	c := e.c
+	if !c.holdBatch {
+		c.batch++
+		c.holdBatch = true
+		defer func() { c.holdBatch = false }()
+	}
+	need := e.nstages + 3
+	sig := e.signature()
+	stable := 0
+	for i := 0; stable < need && i < 4000; i++ {
+		c.Advance(simPause)
+		if s2 := e.signature(); s2 != sig {
+			sig, stable = s2, 0
+		} else {
+			stable++
+		}
+	}
+}
+
 func (e *schedEngine) inflightNames() []string {
 	var out []string
 	for _, p := range e.c.Parked {
@@ -316,8 +364,6 @@ func (e *schedEngine) barrier() bool {
 	if e.cancelSeen || e.model.Ambiguous || e.g.HasMissingCond() {
 		return true
 	}
-	c.holdBatch = true
-	defer func() { c.holdBatch = false }()
 	start := c.Now()
 	for {
 		miss := e.eligibleMissing()
@@ -332,7 +378,10 @@ func (e *schedEngine) barrier() bool {
 			c.Violate("C04", "eligible-not-started", "eligible stage(s) %v not started within %s simulated while in flight: %v", miss, liveBound, e.inflightNames())
 			return false
 		}
-		c.Advance(pollPause)
+		e.settle()
+		if c.Now()-start > time.Second {
+			c.Advance(time.Second) // a scheduler that does not honour the simulator's pause: coarser steps
+		}
 	}
 }
 
@@ -348,6 +397,7 @@ func RunSchedWorld(c *Ctl, prof *SchedProfile, g *GraphSpec, res *RunResult) {
 		stageReleased: map[string]bool{},
 	}
 	e.index(g, nil)
+	e.nstages = g.CountStages()
 	e.model = EvalDag(g, false)
 	e.modelAlt = EvalDag(g, true)
 	real, err := buildRealGraph(g, e.stages)
@@ -373,6 +423,8 @@ func RunSchedWorld(c *Ctl, prof *SchedProfile, g *GraphSpec, res *RunResult) {
 	}
 	defer func() { scheduler.VerifYield = nil }()
 
+	scheduler.VerifPause = simPause
+	defer func() { scheduler.VerifPause = 0 }()
 	sd := scheduler.NewScheduler(stub)
 	go func() {
 		err := sd.Schedule(real)
@@ -397,7 +449,14 @@ func RunSchedWorld(c *Ctl, prof *SchedProfile, g *GraphSpec, res *RunResult) {
 
 	idle := time.Duration(0)
 	for c.Steps = 0; ; c.Steps++ {
-		c.Quiesce()
+		if c.Steps == 0 {
+			c.holdBatch = true
+			c.Quiesce()
+			e.settle()
+			c.holdBatch = false
+		} else {
+			c.Quiesce()
+		}
 		if e.returned {
 			break
 		}
@@ -410,7 +469,12 @@ func RunSchedWorld(c *Ctl, prof *SchedProfile, g *GraphSpec, res *RunResult) {
 		if c.Steps >= prof.StepCap {
 			// deterministic drain
 			if len(parks) > 0 {
+				c.batch++
+				c.holdBatch = true
 				c.Release(parks[0], Action{Kind: "go"})
+				c.Quiesce()
+				e.settle()
+				c.holdBatch = false
 				idle = 0
 				continue
 			}
@@ -425,8 +489,12 @@ func RunSchedWorld(c *Ctl, prof *SchedProfile, g *GraphSpec, res *RunResult) {
 				e.fireFault(faults[0], 0)
 				continue
 			}
-			c.Advance(pollPause)
-			idle += pollPause
+			t0 := c.Now()
+			e.settle()
+			if idle > time.Second {
+				c.Advance(time.Second)
+			}
+			idle += c.Now() - t0
 			continue
 		}
 		idle = 0
@@ -452,9 +520,19 @@ func RunSchedWorld(c *Ctl, prof *SchedProfile, g *GraphSpec, res *RunResult) {
 			if len(parks) >= 2 {
 				c.Count("release_with_overlap")
 			}
-			c.Release(parks[k], Action{Kind: "go"})
+			if sp := e.byName[parks[k].Key]; parks[k].Kind == "stage-start" && sp != nil && sp.Nested != nil {
+				// a nested Schedule runs its first pass at once: observe only the fixpoint
+				c.batch++
+				c.holdBatch = true
+				c.Release(parks[k], Action{Kind: "go"})
+				c.Quiesce()
+				e.settle()
+				c.holdBatch = false
+			} else {
+				c.Release(parks[k], Action{Kind: "go"})
+			}
 		case k == len(parks):
-			c.Advance(pollPause)
+			e.settle()
 		case k == len(parks)+1:
 			if !e.barrier() {
 				break
@@ -502,7 +580,10 @@ func (e *schedEngine) waitCancelReturn(want int) {
 			c.Violate("C12", "cancel-no-return", "Cancel did not return within %s simulated (%d of %d calls returned)", liveBound, e.cancelRet, want)
 			return
 		}
-		c.Advance(pollPause)
+		e.settle()
+		if c.Now()-start > time.Second {
+			c.Advance(time.Second)
+		}
 	}
 }
 
